@@ -744,6 +744,13 @@ class Interp:
             if isinstance(r, SOpt):
                 return zor(zand(l.isnone, r.isnone), zand(znot(l.isnone), znot(r.isnone), self.equal(l.val, r.val)))
             return zand(znot(l.isnone), self.equal(l.val, r))
+        if isinstance(l, Opaque) or isinstance(r, Opaque):
+            # a value the model does not interpret: its equality with anything is unknown, never "False"
+            if l is r:
+                return True
+            if l is None or r is None:
+                return False
+            return self.ctx.const('eq!opaque', BoolS)
         if isinstance(l, Code):
             return l.eq(r)
         if isinstance(r, Code):
